@@ -278,7 +278,27 @@ Fixpoint av_skip_start (idx:N) (cps:list N) : option N :=
   | [] => None
   | c :: r => if av_removable c then av_skip_start (idx + 1) r else Some idx
   end.
-Definition av_skip_trail (cps:list N) : option N := av_skip_start 0 (rev cps).
+(* skip_trailing_characteres as it was before the repair of D8 (every trailing removable character is removed, also the
+   second half of a quoted-pair): kept for the witness Props/C01.v C01_quoted_ctor_pinned_refuted *)
+Definition av_skip_trail_pinned (cps:list N) : option N := av_skip_start 0 (rev cps).
+(* the repaired skip_trailing_characteres: `rest.chars().rev().take_while(|b| *b == '\\').count() % 2 == 1` on the
+   reversed characters before `c` (parity of the run of backslashes that immediately precedes `c`) *)
+Fixpoint av_bs_odd (rl:list N) : bool :=
+  match rl with
+  | c :: r => if c =? 0x5C then negb (av_bs_odd r) else false
+  | [] => false
+  end.
+(* the loop over `text.chars().rev().enumerate()`: `rl` = the characters not yet visited, last one first; a removable
+   character preceded by an odd number of backslashes is the second half of a quoted-pair and ends the trimming.
+   (`||` is lazy in the extracted code and a removable character that is not escaped is followed, in `rl`, by a
+   backslash only if the run is even, where the loop stops at the next step: the whole scan is linear.) *)
+Fixpoint av_skip_trail_rev (idx:N) (rl:list N) : option N :=
+  match rl with
+  | [] => None
+  | c :: r => if negb (av_removable c) || av_bs_odd r then Some idx else av_skip_trail_rev (idx + 1) r
+  end.
+(* rev_append cps [] = rev cps, in linear time *)
+Definition av_skip_trail (cps:list N) : option N := av_skip_trail_rev 0 (rev_append cps []).
 
 (* formatted_quoted_string_from(s): s is a str (valid UTF-8 bytes `s`, code points `cps`) *)
 Definition av_formatted (s:bytes) (cps:list N) : vres bytes :=
@@ -291,6 +311,20 @@ Definition av_formatted (s:bytes) (cps:list N) : vres bytes :=
         match av_skip_trail (av_chars s1) with
         | Some p => if len s1 <? p then VPanic                    (* s.len() - pos *)
                     else av_str_to s1 (len s1 - p)                (* &s[..s.len() - pos] *)
+        | None => VOk s1
+        end
+    end.
+
+(* formatted_quoted_string_from before the repair of D8 (witness only) *)
+Definition av_formatted_pinned (s:bytes) (cps:list N) : vres bytes :=
+  if negb (av_quoted_text cps) && negb (av_quoted_string cps) then VErr
+  else
+    match av_skip_start 0 cps with
+    | None => av_str_to s 0
+    | Some pos =>
+        vlet s1 := av_str_from s pos in
+        match av_skip_trail_pinned (av_chars s1) with
+        | Some p => if len s1 <? p then VPanic else av_str_to s1 (len s1 - p)
         | None => VOk s1
         end
     end.
@@ -625,10 +659,14 @@ Definition av_opt_ok (p:option bytes) : bool :=
 Fixpoint av_nodup (l:list N) : bool :=
   match l with [] => true | x :: r => negb (existsb (N.eqb x) r) && av_nodup r end.
 Definition av_ascii_print (s:bytes) : bool := forallb (fun b => (0x20 <=? b) && (b <=? 0x7E)) s.
+(* nothing to trim: the first character is not removable and the last one is not removable or is the second half of a
+   quoted-pair (the test skip_trailing_characteres stops at) *)
+Definition av_trail_stop (rl:list N) : bool :=
+  match rl with c :: r => negb (av_removable c) || av_bs_odd r | [] => false end.
 Definition av_trimmed (cps:list N) : bool :=
   match cps with
   | [] => true
-  | c :: _ => negb (av_removable c) && negb (av_removable (last cps 0))
+  | c :: _ => negb (av_removable c) && av_trail_stop (rev cps)
   end.
 Definition av_quoted_ok (s:bytes) : bool :=
   match av_utf8 s with Some cps => av_quoted_text cps && av_trimmed cps | None => false end.
